@@ -56,6 +56,18 @@ Theorem C02_file_path_records :
 Proof. exact file_path_records. Qed.
 Print Assumptions C02_file_path_records.
 
+(* the first mmap of a regular (seekable) file FAILS for whatever reason (ENOMEM; special files; /proc files of
+   st_size 0 read from any offset): the catch block seeks to desired_begin and read() takes over: still
+   exactly the records of the bytes from the descriptor's offset on, nothing in front of it *)
+Theorem C02_file_mmap_failure_records :
+  forall page cap file off script d cr,
+  1 <= cap -> off <= length file -> no_err script = true -> detect_magic (skipn off file) = false ->
+  exists s sf, fp_open_file_mmap_fails page cap file off script = Ok s /\
+    read_all d cr s = (Ok (records d cr (skipn off file)), sf) /\
+    (forall d' cr', read_line d' cr' sf = (RlEOF, sf)).
+Proof. exact file_mmap_failure_records. Qed.
+Print Assumptions C02_file_mmap_failure_records.
+
 (* default_map_size_ = kPageSize * max(min_buffer / kPageSize + 1, 2) meets the premises above
    for every min_buffer *)
 Theorem C02_initial_window_admissible :
